@@ -385,6 +385,89 @@ func bodyPurgeGate(k cfg) func(c *drv.Ctx) {
 	}
 }
 
+// openFilesUnder lists descriptors of this process that point below dir.
+func openFilesUnder(dir string) []string {
+	var out []string
+	fds, _ := os.ReadDir("/proc/self/fd")
+	for _, fd := range fds {
+		if t, err := os.Readlink("/proc/self/fd/" + fd.Name()); err == nil && strings.HasPrefix(t, dir) {
+			out = append(out, strings.TrimPrefix(t, dir))
+		}
+	}
+	sort.Strings(out)
+	return out
+}
+
+// bodyCloseDuringPersist: Close arrives while the persister is in the middle of persisting a newer
+// snapshot (unsafe batch: the call returned before anything was persisted). Whatever the persister
+// had reached, after Close no file of the index may remain open, and the index reopens to a
+// whole-batch state.
+func bodyCloseDuringPersist(k cfg) func(c *drv.Ctx) {
+	return func(c *drv.Ctx) {
+		base := c.Dir + "/idx"
+		var idx bleve.Index
+		vrt.Free(func() {
+			var err error
+			idx, err = bleve.NewUsing(base, bleve.NewIndexMapping(), scorch.Name, scorch.Name, map[string]interface{}{
+				"numSnapshotsToKeep": k.keep, "unsafe_batch": true,
+				"scorchMergePlanOptions": bx.CopyConfig(bx.AggressiveMergePlan),
+			})
+			if err != nil {
+				panic(err)
+			}
+			vrt.WaitIdle()
+		})
+		batch := func(j int) {
+			b := idx.NewBatch()
+			b.Index("a", map[string]interface{}{"seq": strconv.Itoa(j)})
+			b.Index(fmt.Sprintf("d%d", j), map[string]interface{}{"seq": strconv.Itoa(j)})
+			if err := idx.Batch(b); err != nil {
+				c.Fail("error:batch", "Batch: %v", err)
+			}
+		}
+		vrt.Free(func() {
+			batch(1)
+			vrt.WaitIdle() // a segment file exists and is part of the state
+		})
+		start := make(chan int, 1)
+		var wg vrt.WaitGroup
+		wg.Add(1)
+		vrt.Go(func() { // created last: in the default schedule the persister finishes first; a deviation lets Close cut in
+			defer wg.Done()
+			vrt.Recv(start)
+			if err := idx.Close(); err != nil {
+				c.Fail("error:close", "Close: %v", err)
+			}
+		})
+		batch(2)
+		if k.batches > 2 {
+			batch(3)
+		}
+		vrt.Send(start, 1)
+		wg.Wait()
+		vrt.WaitIdle()
+		if open := openFilesUnder(base); len(open) > 0 {
+			c.Fail("fd-left-open-after-close", "files of the index still open after Close returned (Close arrived during a persist): %v", open)
+		}
+		vrt.Free(func() {
+			re, err := bleve.Open(base)
+			if err != nil {
+				c.Fail("reopen-fails", "the index does not open again after Close: %v", err)
+				return
+			}
+			n, _ := re.DocCount()
+			c.Observe(fmt.Sprintf("reopened=%d", n))
+			if n != 2 && n != 3 && n != 4 {
+				c.Fail("reopen-not-a-batch-prefix", "reopened index holds %d documents (whole batches give 2, 3 or 4)", n)
+			}
+			re.Close()
+			if open := openFilesUnder(base); len(open) > 0 {
+				c.Fail("fd-left-open-after-close", "files of the index still open after the reopened index was closed: %v", open)
+			}
+		})
+	}
+}
+
 // gatedDir is a backup target whose first GetWriter parks the copying thread until released: a slow
 // backup, expressed with scheduler primitives so that it is an ordinary, explorable wait.
 type gatedDir struct {
@@ -525,6 +608,7 @@ func Scenarios() []drv.Scenario {
 		mk(cfg{name: "writer+reader+two-overlapping-copies-keep1", keep: 1, batches: 4, copy: true, copies: 2}, d1r, d2),
 		mk(cfg{name: "unsafe-writer+reader+two-overlapping-copies-keep1", keep: 1, batches: 4, copy: true, copies: 2, unsafe: true}, d1r, d2),
 		{Name: "slow-overlapping-backups-unsafe-keep1", Body: bodySlow(cfg{keep: 1, batches: 3}), Quick: d1r, Thorough: d2, Class: "files", MaxSteps: 1500000},
+		{Name: "close-arrives-during-persist-unsafe", Body: bodyCloseDuringPersist(cfg{keep: 1, batches: 3}), Quick: d1r, Thorough: d2, Class: "files", MaxSteps: 1500000},
 		{Name: "batch-introduced-between-merge-and-purge-keep1", Body: bodyPurgeGate(cfg{keep: 1}), Quick: d1r, Thorough: d2, Class: "files", MaxSteps: 1500000},
 		mk(cfg{name: "writer+reader-keep3", keep: 3, batches: 4}, nil, d1),
 		mk(cfg{name: "writer+reader-keep2-every-step", keep: 2, batches: 3, allStep: true}, nil, d1),
